@@ -411,6 +411,7 @@ class WritersHarness(Harness):
   def _region_geometry(self, info, regions):
     L = styles.LengthType
     U = L.Units
+    self.GEOM = {}     # per document: a worker process runs many partitions, geometry of an earlier document must not linger
     for (rid, fl), rn in zip(regions, info.regions):
       og = [f for f in fl.split() if f.startswith("og=")]
       xt = [f for f in fl.split() if f.startswith("xt=")]
